@@ -27,8 +27,8 @@ pub fn prop() -> Prop {
         id: "C17",
         level: "exploration",
         runs: |t| match t {
-            Tier::Quick => 800,
-            Tier::Thorough => 12000,
+            Tier::Quick => 5000,
+            Tier::Thorough => 50000,
         },
         generate,
         exec,
